@@ -65,8 +65,15 @@ CHANGES = {
 }
 
 
+AERO = ['beta']          # how the aerodynamic definition is given: 'beta' (coefficient) or 'mach' (flow state; beta and gamma derived)
+
+
 def fresh(it, geom, changed=None):
-    extra = dict(Nxx=real('Nxx'), Nyy=real('Nyy'), Nxy=real('Nxy'), beta=real('beta'))
+    extra = dict(Nxx=real('Nxx'), Nyy=real('Nyy'), Nxy=real('Nxy'))
+    if AERO[0] == 'beta':
+        extra['beta'] = real('beta')
+    else:
+        extra.update(Mach=real('Mach'), V=real('Vinf'), rho_air=real('rho_air'), speed_sound=real('speed_sound'))
     p, kw, want, g = build(it, geom, 'uniform', 'none', extra)
     p.attrs['forces'] = [[real('xf'), real('yf'), real('fx'), real('fy'), real('fz')]]
     if changed:
@@ -174,8 +181,52 @@ def check_panel_history(led):
             else:
                 led.fail(name, PF + op, {'meaning': 'after %s is changed, %s does not return what a fresh object with the new value returns' % (ch, op)},
                          signature='stale:%s:%s' % (op, ch))
+    # aerodynamic matrix of a panel whose flow is given by Mach number, speed and density (beta, gamma derived on request)
+    from ..pysym import to_z3
+    AERO[0] = 'mach'
+    saved = list(it.facts)
+    it.facts += [to_z3(real('Mach')) > 1, to_z3(real('speed_sound')) > 0, to_z3(real('rho_air')) > 0, to_z3(real('Vinf')) > 0]
+    try:
+        for geom in ('plate', 'cpanel'):
+            alone = run_seq(it, geom, ['calc_kA'])
+            want = sorted(set(o[1] if o[0] == 'ok' else ('raise', o[1]) for o in alone), key=repr)
+            for seq in (['calc_kA', 'calc_kA'], ['calc_k0', 'calc_kA'], ['calc_kA', 'calc_kM', 'calc_kA'], ['calc_kA', 'calc_k0', 'calc_kA']):
+                outs = run_seq(it, geom, seq)
+                got = sorted(set(o[1] if o[0] == 'ok' else ('raise', o[1]) for o in outs), key=repr)
+                name = '%scalc_kA[%s,flow given by Mach]/same-result-after-%s' % (PF, geom, '+'.join(seq[:-1]))
+                if got == want and not any(o[0] == 'raise' for o in alone):
+                    led.ok(name, PF + 'calc_kA')
+                else:
+                    led.fail(name, PF + 'calc_kA', {'meaning': 'the aerodynamic matrix of a panel defined by its flow state depends on the requests made before',
+                                                    'alone': [str(x)[:300] for x in want][:2], 'in_history': [str(x)[:300] for x in got][:2]},
+                             signature='history-mach:%s' % '+'.join(seq), replay=replay_kA_mach(seq))
+    finally:
+        AERO[0] = 'beta'
+        it.facts[:] = saved
     led.solver_time('z3-feasibility', it.solver_time)
-    led.extra['sequences'] = led.extra.get('sequences', 0) + len(OPS) * len(OPS) * 2
+    led.extra['sequences'] = led.extra.get('sequences', 0) + len(OPS) * len(OPS) * 2 + 8
+
+
+def replay_kA_mach(seq):
+    from ..pyreplay import run_real
+    script = '''
+import numpy as np
+from compmech.panel import Panel
+def new():
+    p = Panel(a=1., b=0.5, r=2., stack=[0, 90, 90, 0], plyt=1.25e-4, laminaprop=(142.5e9, 8.7e9, 0.28, 5.1e9, 5.1e9, 5.1e9), mu=1500., m=4, n=4)
+    p.Mach = 2.; p.V = 680.; p.rho_air = 0.3; p.speed_sound = 340.
+    return p
+alone = np.asarray(new().calc_kA(silent=True).todense())
+p = new()
+for op in payload['seq']:
+    r = getattr(p, op)(silent=True)
+hist = np.asarray(r.todense())
+out = {'max_abs_alone': float(abs(alone).max()), 'max_abs_difference': float(abs(alone - hist).max())}
+'''
+    r = run_real(script, {'seq': list(seq)})
+    d = r.get('max_abs_difference')
+    return {'reproduced': bool(r.get('raised') or (isinstance(d, float) and d > 1e-9 * max(r.get('max_abs_alone', 0), 1e-300))), 'input': {'sequence': list(seq), 'panel': 'cylindrical, Mach=2, V=680, rho_air=0.3, speed_sound=340'}, 'result': r,
+            'real_function': 'Panel.calc_kA'}
 
 
 DEF_ATTRS = ['a', 'b', 'r', 'alphadeg', 'stack', 'plyt', 'laminaprop', 'offset', 'm', 'n', 'mu', 'Nxx', 'Nyy', 'Nxy', 'y1', 'y2', 'beta', 'gamma',
